@@ -16,7 +16,9 @@ package main
 import (
 	"context"
 	"encoding/json"
+
 	"fmt"
+	"github.com/fxamacker/cbor/v2"
 	"sort"
 	"strings"
 	"sync"
@@ -46,17 +48,28 @@ type workload struct {
 	Close  string     `json:"close"`  // end | race | none
 }
 
+type scriptOp struct {
+	Op      string `json:"op"`   // send | partial | eof | finish
+	Kind    string `json:"kind"` // ws | sig | cd | bad | junk
+	Run     string `json:"run"`
+	Beh     string `json:"beh"`     // ok | err | panic | baddata | declared_error
+	Variant string `json:"variant"` // see clientMessage
+	Cut     int    `json:"cut"`     // partial: number of bytes written
+}
+
 type scenario struct {
-	Mode     string    `json:"mode"`
-	Cap      int       `json:"cap"`
-	Frag     bool      `json:"frag"`
-	Runs     []runSpec `json:"runs"`
-	Schedule []action  `json:"schedule"`
-	Work     workload  `json:"workload"`
-	DelayKey string    `json:"delay_key"`
-	DelayNth int       `json:"delay_nth"`
-	Seed     int64     `json:"seed"`
-	ID       string    `json:"id"`
+	Script   []scriptOp `json:"script"`
+	CutAt    int        `json:"cut_at"` // > 0: the byte stream of the script is cut at this offset, then EOF
+	Mode     string     `json:"mode"`
+	Cap      int        `json:"cap"`
+	Frag     bool       `json:"frag"`
+	Runs     []runSpec  `json:"runs"`
+	Schedule []action   `json:"schedule"`
+	Work     workload   `json:"workload"`
+	DelayKey string     `json:"delay_key"`
+	DelayNth int        `json:"delay_nth"`
+	Seed     int64      `json:"seed"`
+	ID       string     `json:"id"`
 }
 
 type execResult struct {
@@ -84,6 +97,11 @@ type result struct {
 	DelayHit      bool                  `json:"delay_hit"`
 	Steps         int                   `json:"steps"`
 	Panic         string                `json:"panic,omitempty"`
+	// server mode
+	Accepted  map[string]int `json:"accepted,omitempty"`
+	Terminals map[string]int `json:"terminals,omitempty"`
+	Received  []string       `json:"received,omitempty"`
+	StreamLen int            `json:"stream_len,omitempty"`
 }
 
 // ------------------------------------------------------------------ plugin under test
@@ -115,6 +133,7 @@ type world struct {
 	srvC       chan int
 	cancel     context.CancelFunc
 	spawned    map[string]bool
+	stepGate   func(run string)
 }
 
 func prop(t schema.Type) *schema.PropertySchema {
@@ -137,17 +156,27 @@ func (w *world) plugin() *schema.CallableSchema {
 	})
 	step := schema.NewCallableStepWithSignals[any, stepIn](
 		"step", in,
-		map[string]*schema.StepOutputSchema{"success": schema.NewStepOutputSchema(out, nil, false)},
+		map[string]*schema.StepOutputSchema{
+			"success": schema.NewStepOutputSchema(out, nil, false),
+			"error":   schema.NewStepOutputSchema(out, nil, true),
+		},
 		map[string]schema.CallableSignal{"sig": sig},
 		map[string]*schema.SignalSchema{},
 		nil, nil,
 		func(_ context.Context, _ any, in stepIn) (string, any) {
 			w.s.Gate(sched.GoID(), "h.step|"+in.Name)
+			if w.stepGate != nil {
+				w.stepGate(in.Name)
+			}
 			switch in.Beh {
 			case "err":
 				return "undeclared", stepOut{Message: "x"}
 			case "panic":
 				panic("step handler panics on request")
+			case "baddata":
+				return "success", 5
+			case "declared_error":
+				return "error", stepOut{Message: "hello " + in.Name}
 			}
 			return "success", stepOut{Message: "hello " + in.Name}
 		},
@@ -605,6 +634,8 @@ func runScenario(sc scenario) (res *result) {
 	}()
 	wantClose := false
 	switch sc.Mode {
+	case "server":
+		w.serverSession(res)
 	case "replay":
 		// the server's idle goroutines wait at their steady gates; follow the schedule
 		w.s.Reset()
@@ -731,6 +762,245 @@ func (w *world) parkServerOnce() bool {
 		time.Sleep(50 * time.Microsecond)
 	}
 	return moved
+}
+
+// ------------------------------------------------------------------ C07: scripted client against the real server
+func clientMessage(op scriptOp) []byte {
+	enc := func(v any) []byte {
+		b, err := cbor.Marshal(v)
+		if err != nil {
+			panic(err)
+		}
+		return b
+	}
+	stepID, runID := "step", op.Run
+	var cfg any = map[string]any{"name": op.Run, "beh": op.Beh}
+	switch op.Kind {
+	case "ws":
+		var data any
+		switch op.Variant {
+		case "unknown_step":
+			stepID = "nope"
+		case "bad_input":
+			cfg = "not a map"
+		case "no_run":
+			runID = ""
+		case "no_step":
+			stepID = ""
+		}
+		data = atp.WorkStartMessage{StepID: stepID, Config: cfg}
+		if op.Variant == "payload_type" {
+			data = "a string where a work-start message belongs"
+		}
+		return enc(atp.RuntimeMessage{MessageID: atp.MessageTypeWorkStart, RunID: runID, MessageData: data})
+	case "sig":
+		sigID := "sig"
+		var d any = map[string]any{"name": op.Run}
+		switch op.Variant {
+		case "unknown_signal":
+			sigID = "nope"
+		case "bad_data":
+			d = map[string]any{"bogus": 1}
+		case "no_run":
+			runID = ""
+		}
+		var data any = atp.SignalMessage{SignalID: sigID, Data: d}
+		if op.Variant == "payload_type" {
+			data = 17
+		}
+		return enc(atp.RuntimeMessage{MessageID: atp.MessageTypeSignal, RunID: runID, MessageData: data})
+	case "cd":
+		return enc(atp.RuntimeMessage{MessageID: atp.MessageTypeClientDone, RunID: "", MessageData: map[string]any{}})
+	case "bad":
+		switch op.Variant {
+		case "error_id":
+			return enc(atp.RuntimeMessage{MessageID: atp.MessageTypeError, RunID: op.Run, MessageData: map[string]any{}})
+		case "workdone_id":
+			return enc(atp.RuntimeMessage{MessageID: atp.MessageTypeWorkDone, RunID: op.Run, MessageData: map[string]any{}})
+		case "missing_fields":
+			return enc(map[string]any{"foo": 1}) // decodes to a runtime message with ID 0
+		}
+		return enc(atp.RuntimeMessage{MessageID: 99, RunID: op.Run, MessageData: map[string]any{}})
+	case "junk":
+		switch op.Variant {
+		case "int":
+			return enc(42)
+		case "array":
+			return enc([]any{1, "x"})
+		case "reserved":
+			return []byte{0xff, 0xff, 0xff}
+		}
+		return []byte{0x1c} // reserved additional information: not well-formed CBOR
+	}
+	panic("unknown script message kind " + op.Kind)
+}
+
+func (w *world) serverSession(res *result) {
+	w.s.Reset()
+	res.Accepted, res.Terminals = map[string]int{}, map[string]int{}
+	role := func(r string) { w.s.SetRole(r) }
+	// reader: the client keeps reading and decodes what the server sends
+	readerDone := make(chan struct{})
+	go func() {
+		defer close(readerDone)
+		role("env:reader")
+		dec := cbor.NewDecoder(sched.Duplex{In: w.s2c, Out: w.c2s})
+		for {
+			var m atp.DecodedRuntimeMessage
+			if err := dec.Decode(&m); err != nil {
+				return
+			}
+			kind := fmt.Sprintf("id%d", m.MessageID)
+			switch m.MessageID {
+			case atp.MessageTypeWorkDone:
+				kind = "wd"
+				w.mu.Lock()
+				res.Terminals[m.RunID]++
+				w.mu.Unlock()
+			case atp.MessageTypeError:
+				var e atp.ErrorMessage
+				_ = cbor.Unmarshal(m.RawMessageData, &e)
+				kind = "err"
+				if e.ServerFatal {
+					kind = "err_server"
+				} else if e.StepFatal {
+					kind = "err_step"
+					if m.RunID != "" {
+						w.mu.Lock()
+						res.Terminals[m.RunID]++
+						w.mu.Unlock()
+					}
+				}
+			}
+			w.mu.Lock()
+			res.Received = append(res.Received, kind+":"+m.RunID)
+			w.mu.Unlock()
+		}
+	}()
+	// step handlers wait for their "finish" op
+	gates := map[string]chan struct{}{}
+	for _, op := range w.sc.Script {
+		if op.Op == "finish" || (op.Op == "send" && op.Kind == "ws") {
+			if _, ok := gates[op.Run]; !ok {
+				gates[op.Run] = make(chan struct{})
+			}
+		}
+	}
+	w.stepGate = func(run string) {
+		w.mu.Lock()
+		g := gates[run]
+		w.mu.Unlock()
+		if g != nil {
+			<-g
+		}
+	}
+	released := map[string]bool{}
+	release := func(run string) {
+		if g, ok := gates[run]; ok && !released[run] {
+			released[run] = true
+			close(g)
+		}
+	}
+	// writer: the script, sequentially; optionally cut at a byte offset
+	role("env:writer")
+	g := sched.GoID()
+	written := 0
+	ended := false
+	for _, op := range w.sc.Script {
+		if ended {
+			break
+		}
+		switch op.Op {
+		case "finish":
+			release(op.Run)
+			w.s.WaitSettled(stepTimeout)
+		case "eof":
+			w.s.Emit(g, "e.eof", map[string]any{})
+			w.c2s.CloseWrite()
+			ended = true
+		case "send", "partial":
+			b := clientMessage(op)
+			whole := true
+			if op.Op == "partial" && op.Cut > 0 && op.Cut < len(b) {
+				b, whole = b[:op.Cut], false
+			}
+			if w.sc.CutAt > 0 && written+len(b) > w.sc.CutAt {
+				b, whole = b[:w.sc.CutAt-written], false
+			}
+			if len(b) > 0 {
+				// abstract kind and the run ID the server's reply will carry (spec/ATPServerEnv.tla)
+				kind, run := op.Kind, op.Run
+				switch {
+				case op.Kind == "ws" && (op.Variant == "no_run" || op.Variant == "no_step"):
+					kind, run = "wsbad", ""
+				case op.Kind == "ws" && op.Variant == "payload_type":
+					kind = "wsbad"
+				case op.Kind == "sig" && op.Variant == "no_run":
+					kind, run = "bad", ""
+				case op.Kind == "sig" && op.Variant == "payload_type":
+					kind = "bad"
+				case op.Kind == "bad":
+					run = ""
+				case op.Kind == "cd" || op.Kind == "junk":
+					run = ""
+				}
+				w.s.Emit(g, "e.send", map[string]any{"kind": kind, "run": run, "whole": whole, "variant": op.Variant})
+				_, err := w.c2s.Write(b)
+				written += len(b)
+				if err != nil {
+					w.s.Emit(g, "e.wfail", map[string]any{})
+				}
+			}
+			if !whole || (w.sc.CutAt > 0 && written >= w.sc.CutAt) {
+				w.s.Emit(g, "e.eof", map[string]any{})
+				w.c2s.CloseWrite()
+				ended = true
+			}
+		}
+	}
+	res.StreamLen = written
+	if !ended {
+		// the input always ends eventually
+		w.s.WaitSettled(stepTimeout)
+		w.s.Emit(g, "e.eof", map[string]any{})
+		w.c2s.CloseWrite()
+	}
+	for run := range gates {
+		release(run)
+	}
+	// the server must return once input has ended and steps have finished
+	deadline := time.Now().Add(20 * time.Second)
+	quiet := 0
+	for {
+		select {
+		case n := <-w.srvC:
+			res.ServerRet = true
+			res.ServerErrs = n
+			<-readerDone
+			for _, e := range w.s.Events() {
+				if e.Point == "s.start" {
+					if r, ok := e.KV["run"].(string); ok {
+						res.Accepted[r]++
+					}
+				}
+			}
+			return
+		case <-time.After(300 * time.Microsecond):
+			if sched.Settled() {
+				quiet++
+			} else {
+				quiet = 0
+			}
+			if quiet >= 30 || time.Now().After(deadline) {
+				res.Stuck = true
+				for _, g := range sched.BlockedSDK() {
+					res.StuckDetail = append(res.StuckDetail, fmt.Sprintf("%s [%s] %s", w.s.Role(g.ID), g.State, strings.TrimSpace(g.Top)))
+				}
+				sort.Strings(res.StuckDetail)
+				return
+			}
+		}
+	}
 }
 
 func handle(raw json.RawMessage) any {
